@@ -221,6 +221,16 @@ func (tw *TumblingWindow) Add(data any) {
 		}
 	}
 
+	// An on-time event older than the current slot (out of order within
+	// MaxOutOfOrderness before that slot ever fired, or following a far-future
+	// first event) must not be skipped: move the current slot back to its window.
+	// No fired window can be revisited: a fired window ends at or before the
+	// watermark, so an event inside it is late.
+	if timeChar == types.EventTime && tw.currentSlot != nil && eventTime.Before(*tw.currentSlot.Start) &&
+		(tw.watermark == nil || !tw.watermark.IsEventTimeLate(eventTime)) {
+		tw.currentSlot = tw.createSlotFromStart(alignWindowStart(eventTime, tw.size))
+	}
+
 	row := types.Row{
 		Data:      data,
 		Timestamp: eventTime,
